@@ -234,15 +234,21 @@ def ordering(ctx: RunCtx) -> None:
                 st.append(gen_log(ch, f"c{i}.s{si}.post")) if not any(o[0] == "finish" for o in st) else None
         if ch.chance(1, 4, f"c{i}.big"):
             c.beh.big = 1500
+        if c.ending == "cancel" and ch.choose(2, f"c{i}.cancel-logs"):
+            c.beh.cancel_logs = [("log", lg[1], f"oncancel {j} {lg[2]}", lg[3])
+                                 for j, lg in enumerate(gen_log(ch, f"c{i}.cl{j}") for j in range(1 + ch.choose(2, f"c{i}.ncl")))]
         calls.append(c)
-    legs.install_world([svc], calls)
+    world_ = legs.install_world([svc], calls)
     try:
         shapes = [shape(svc, c) for c in calls]
         exps = [expected(svc, c) for c in calls]
         kind = s1.KINDS[ch.choose(len(s1.KINDS), "pipe.kind")]
+        m0 = len(world_.rec)
         pr = legs.run_pipe_leg(ctx, svc, calls, kind, buggify=bool(ch.choose(2, "buggify")), label="p")
+        m1 = len(world_.rec)
         cfg = legs.draw_http_cfg(ch, "h")
         hr = legs.run_http_leg(ctx, svc, calls, cfg, label="h")
+        leg_rec = {"pipe": list(world_.rec[m0:m1]), "http": list(world_.rec[m1:])}
         ctx.case_key = ("ordering", tuple(shapes), cfg.label())
         nlogs = sum(1 for e in sum(exps, []) if e.kind == "log")
         ctx.nontrivial = nlogs > 0
@@ -259,6 +265,16 @@ def ordering(ctx: RunCtx) -> None:
                 tr2, refused = strip_cap_refusal(svc, calls[i], tr, fam)
                 if refused:
                     mode, mb = "prefix", 0
+                # logs the on_cancel hook emits: delivered (in order, once) while cancel() runs, iff the hook ran
+                got_cl = [e[1] for e in tr if e[0] == "cancel-log"]
+                if calls[i].beh.cancel_logs or got_cl:
+                    hook_ran = any(e[0] == "cancel" and e[1] == calls[i].tag for e in leg_rec[fam])
+                    want_cl = [(op[1], op[2], {k: str(v) for k, v in (op[3] or {}).items()}) for op in calls[i].beh.cancel_logs] if hook_ran else []
+                    ch.probe("on_cancel-logs:" + ("hook-ran" if hook_ran else "hook-did-not-run"))
+                    if [tuple(x) for x in got_cl] != [tuple(x) for x in want_cl] and not any(e[0] == "cb-exc" for e in tr):
+                        ctx.violation("C08", "cancel-log", f"{fam}:{shapes[i].split(':')[0]}", f"{r.name} call {i} {shapes[i]}: on_cancel emitted "
+                                      f"{want_cl} for the client (hook ran: {hook_ran}); the log callback received {got_cl} during cancel()")
+                        return
                 why = compare(tr2, exps[i], mode=mode, min_batches=mb)
                 if why is not None and (why.startswith("log") or why.startswith("extra log")):
                     what = "log-late" if "delivered after" in why else ("log-missing" if "never delivered" in why else (
